@@ -866,17 +866,20 @@ pub struct FormatOptions {
 pub fn format(input: &str, opts: &FormatOptions) -> Result<String, SnippetBuilder> {
 	let (parsed, errors) = jrsonnet_rowan_parser::parse(input);
 	if !errors.is_empty() {
-		let mut builder = hi_doc::SnippetBuilder::new(input);
+		// Errors at the end of input (and every error of an empty input) have no character to point at,
+		// the snippet gets a trailing blank for them: annotations have to lie inside of the snippet text.
+		let mut builder = hi_doc::SnippetBuilder::new(format!("{input} "));
 		for error in errors {
+			let start = usize::from(error.range.start()).min(input.len());
+			let end = usize::from(error.range.end())
+				.saturating_sub(1)
+				.clamp(start, input.len());
 			builder
 				.error(hi_doc::Text::fragment(
 					format!("{:?}", error.error),
 					Formatting::default(),
 				))
-				.range(
-					error.range.start().into()
-						..=(usize::from(error.range.end()) - 1).max(error.range.start().into()),
-				)
+				.range(start..=end)
 				.build();
 		}
 		// let snippet = builder.build();
